@@ -472,6 +472,10 @@ func monC13(w *World) {
 		if st[nd] == nil {
 			st[nd] = &ab{aborted: map[hotstuff.Hash]int{}}
 		}
+		if e.Batch == nil {
+			w.probe("c13-abort-without-batch") // a made-up block without a batch: several may share "no batch", none is attributable
+			return
+		}
 		// which block? the one in this replica's store that owns this batch object
 		var blk *hotstuff.Block
 		for _, bi := range w.reg.order {
